@@ -70,7 +70,7 @@ HDR_V2 = '<?xml version="1.0" encoding="UTF-8" standalone="no"?>\r\n<?OFX OFXHEA
 
 
 def render(desc) -> bytes:
-    tree = D.to_etree(desc)
+    tree = D.to_etree(desc, parser_like=False)
     return HDR_V2.encode() + ET.tostring(tree, encoding="utf_8", method="html")
 
 
